@@ -90,3 +90,32 @@ def resolves_to_format_version(prog, mod, expr, local_imports=None):
         return False
     r = prog.resolve_expr_to_symbol(mod, expr, local_imports)
     return r == ("const", "odml.info", "FORMAT_VERSION")
+
+
+def own_state_getters(prog, rep, rule="GET-1"):
+    """(shared by the XML, the dictionary and the RDF writer, which all read the attributes with getattr(obj, F.map(k))) what a format
+    attribute's getter returns is the object's own state: nothing looked up through the parent chain or a path.  Otherwise every
+    child is saved with a private copy of a value it only inherits (`repository` has get_repository() for the inherited value)."""
+    from .. import analysis
+    rep.rule(rule, "return origin summary of the property getter behind every format key (children collections excepted): all origins are the "
+                   "object itself / its fields - none reaches the parent chain (`up`) or an object found by a lookup (`reach`)")
+    S = analysis.get(prog).s
+    tabs = format_tables(prog)
+    n = 0
+    for fname, tab in sorted(tabs.items()):
+        cls = model_class(prog, fname)
+        for k in sorted(tab["_args"]):
+            if k in CHILD_COLLECTION_KEYS:
+                continue
+            py = tab["_map"].get(k, k)
+            gt = cls.lookup_prop(py, "getter")
+            if gt is None:
+                continue
+            n += 1
+            ro = S.ret_origin.get(gt.qualname, set())
+            far = sorted(o for o in ro if o[1] and ("up" in o[1] or "reach" in o[1]))
+            rep.check(not far, rule, "%s.%s returns own state" % (cls.name, py), "origins %s" % sorted(ro),
+                      "the getter of %s.%s can return a value taken from the parent chain / a looked up object (%s): the writers store it with "
+                      "every object that merely inherits it" % (cls.name, py, far), gt.where,
+                      witness="a Document with a repository and Sections without one: every Section is saved with its own <repository>")
+    rep.floor(rule, n, 20, "format attribute getters")
